@@ -22,12 +22,13 @@ INPUT_TYPE = "(mactable * op)"
 TRUSTED_BASE = [
     "HMAC-SHA1/SHA256 are abstract functions in the proofs (hypotheses: hex, non-empty output; key-injectivity only where stated); "
     "the correspondence uses Python's real hmac via a per-case table of the evaluations the implementation made",
-    "utf8() of names, secrets and str inputs is applied by the harness (the model works on bytes); lone-surrogate str inputs are out of domain",
+    "utf8() is modelled in Coq (str arguments are code-point lists); lone-surrogate str inputs are out of domain",
     "clock() and max_age_days are exact integers / exact rationals (max_age_days = Fraction(seconds, 86400)); float rounding is not modelled",
     "CPython's 4300-digit int<->str limit is not modelled (only reachable behind a valid MAC)",
     "the regex _signed_value_version_re (with re.DOTALL) is modelled by hand: a [1-9][0-9]* run followed by a pipe",
 ]
 ASSUMPTIONS = [
+    "check_case's soundness clauses are guarded by Run.provenance_ok (no table digest the string ends with belongs to anything but the declared origin); py_check asserts it on every generated case",
     "unforgeability is an explicit premise of the soundness theorems: every MAC-valid prefix of the presented string under one of the reader's keys was issued by create_signed_value",
     "key separation theorems assume mac k m = mac k' m -> k = k'",
 ]
@@ -120,12 +121,16 @@ def ref_create(o):
     return None, None
 
 
-def mk_create(S, name, value_b, ver, t, kv):
-    return {"op": "create", "secret": S, "name": name, "value": L(value_b), "ver": ver, "t": t, "kv": kv}
+def mk_create(S, name, value_b, ver, t, kv, vstr=False, nameb=False):
+    return {"op": "create", "secret": S, "name": name, "nameb": bool(nameb), "value": L(value_b), "vstr": bool(vstr), "ver": ver, "t": t, "kv": kv}
 
 
-def mk_decode(S, name, x, maxage, now, minv, hint, kind, xstr=False):
-    return {"op": "decode", "secret": S, "name": name, "x": L(x), "xstr": bool(xstr), "maxage": int(maxage), "now": int(now),
+def mk_keyver(x, expect="?", xstr=False):
+    return {"op": "keyver", "x": L(x), "xstr": bool(xstr), "expect": expect, "secret": {"k": "", "str": False}, "name": ""}
+
+
+def mk_decode(S, name, x, maxage, now, minv, hint, kind, xstr=False, nameb=False):
+    return {"op": "decode", "secret": S, "name": name, "nameb": bool(nameb), "x": (None if x is None else L(x)), "xstr": bool(xstr), "maxage": int(maxage), "now": int(now),
             "minv": minv, "hint": hint, "kind": kind}
 
 
@@ -177,14 +182,22 @@ def run_impl(case):
     W.hmac = _Shim(log)
     try:
         try:
+            name = case["name"].encode("utf-8") if case.get("nameb") else case.get("name")
             if case["op"] == "create":
-                r = W.create_signed_value(py_secret(case["secret"]), case["name"], B(case["value"]), version=case["ver"],
+                vb = B(case["value"])
+                r = W.create_signed_value(py_secret(case["secret"]), name, vb.decode("utf-8") if case.get("vstr") else vb, version=case["ver"],
                                           clock=lambda: case["t"], key_version=case["kv"])
                 r = bytes(r)
-            else:
+            elif case["op"] == "keyver":
                 xb = B(case["x"])
-                x = xb.decode("utf-8") if case.get("xstr") else xb
-                r = W.decode_signed_value(py_secret(case["secret"]), case["name"], x,
+                r = W.get_signature_key_version(xb.decode("utf-8") if case.get("xstr") else xb)
+            else:
+                if case["x"] is None:
+                    x = None
+                else:
+                    xb = B(case["x"])
+                    x = xb.decode("utf-8") if case.get("xstr") else xb
+                r = W.decode_signed_value(py_secret(case["secret"]), name, x,
                                           max_age_days=Fraction(case["maxage"], DAY), clock=lambda: case["now"],
                                           min_version=case["minv"])
                 if r is not None:
@@ -204,10 +217,22 @@ def run_impl(case):
 
 # ----------------------------------------------------------------------------------------
 # Gallina rendering
+def g_arg(b, as_str):
+    """bytes b passed either as bytes or (when as_str) as the str b.decode('utf-8')"""
+    if as_str:
+        return "(PStr %s)" % G.gbytes(b.decode("utf-8"))
+    return "(PBytes %s)" % G.gbytes(b)
+
+
 def g_secret(S):
+    st = bool(S.get("str"))
     if "k" in S:
-        return "(SStr %s)" % G.gbytes(B(S["k"]))
-    return "(SDict %s)" % G.glist(["(%s, %s)" % (G.gz(kv), G.gbytes(B(k))) for kv, k in S["d"]], "(Z * bytes)")
+        return "(SAStr %s)" % g_arg(B(S["k"]), st)
+    return "(SADict %s)" % G.glist(["(%s, %s)" % (G.gz(kv), g_arg(B(k), st)) for kv, k in S["d"]], "(Z * pyarg)")
+
+
+def g_name(c):
+    return g_arg(c["name"].encode("utf-8"), not c.get("nameb"))
 
 
 def g_optz(v):
@@ -219,11 +244,11 @@ def g_hint(h):
         return "HNone"
     if h == "crafted":
         return "HCrafted"
-    return "(HAuth %s %s %s %s %s %s)" % (g_secret(h["secret"]), G.gbytes(h["name"].encode("utf-8")), G.gbytes(B(h["value"])),
+    return "(HAuth %s %s %s %s %s %s)" % (g_secret(h["secret"]), g_name(h), g_arg(B(h["value"]), False),
                                          G.gz(h["ver"]), G.gz(h["t"]), g_optz(h["kv"]))
 
 
-def table(case):
+def table_entries(case):
     qs = []
     for alg, k, m in case.get("_q", []):
         qs.append((alg, B(k), B(m)))
@@ -237,16 +262,29 @@ def table(case):
         if q in seen or q[0] not in ("hmac-sha1", "hmac-sha256"):
             continue
         seen.add(q)
-        out.append("(%s, %s, %s, %s)" % (G.gbool(q[0] == "hmac-sha1"), G.gbytes(q[1]), G.gbytes(q[2]), G.gbytes(mac(*q))))
-    return G.glist(out, "(bool * bytes * bytes * bytes)")
+        out.append(q + (mac(*q),))
+    return out
+
+
+def table(case):
+    return G.glist(["(%s, %s, %s, %s)" % (G.gbool(q[0] == "hmac-sha1"), G.gbytes(q[1]), G.gbytes(q[2]), G.gbytes(q[3]))
+                    for q in table_entries(case)], "(bool * bytes * bytes * bytes)")
+
+
+def g_x(case):
+    if case["x"] is None:
+        return "(@None pyarg)"
+    return "(Some %s)" % g_arg(B(case["x"]), case.get("xstr"))
 
 
 def coq_input(case):
     if case["op"] == "create":
-        o = "(OpCreate %s %s %s %s %s %s)" % (g_secret(case["secret"]), G.gbytes(case["name"].encode("utf-8")), G.gbytes(B(case["value"])),
+        o = "(OpCreate %s %s %s %s %s %s)" % (g_secret(case["secret"]), g_name(case), g_arg(B(case["value"]), case.get("vstr")),
                                              G.gz(case["ver"]), G.gz(case["t"]), g_optz(case["kv"]))
+    elif case["op"] == "keyver":
+        o = "(OpKeyVersion %s)" % g_arg(B(case["x"]), case.get("xstr"))
     else:
-        o = "(OpDecode %s %s %s %s %s %s %s)" % (g_secret(case["secret"]), G.gbytes(case["name"].encode("utf-8")), G.gbytes(B(case["x"])),
+        o = "(OpDecode %s %s %s %s %s %s %s)" % (g_secret(case["secret"]), g_name(case), g_x(case),
                                                 G.gz(case["maxage"]), G.gz(case["now"]), G.gz(case["minv"]), g_hint(case.get("hint")))
     return "(%s, %s)" % (table(case), o)
 
@@ -259,11 +297,22 @@ def py_check(case, o):
         if want is None:
             return isinstance(o, G.Tag)
         return o == want
+    if case["op"] == "keyver":
+        return case["expect"] == "?" or o == case["expect"]
     minv, maxage, now = case["minv"], case["maxage"], case["now"]
     if minv > 2:
         return isinstance(o, G.Tag) and o == "ValueError"
+    if case["x"] is None:
+        return o is None
     h = case.get("hint")
     x, S, name_b = B(case["x"]), case["secret"], case["name"].encode("utf-8")
+    # provenance must be honest (the premise Run.provenance_ok): a table digest the string ends
+    # with belongs to the declared origin's MAC evaluation
+    if h != "crafted":
+        hq = ref_create(h)[1] if isinstance(h, dict) else None
+        for e in table_entries(case):
+            if x.endswith(e[3]) and e[:3] != hq:
+                return False
     y = None
     if isinstance(h, dict):
         y, _ = ref_create(h)
@@ -303,6 +352,8 @@ def py_check(case, o):
 
 
 def nontrivial(case, o):
+    if case["op"] == "keyver":
+        return ("k", case["x"]) if o is not None else None
     if case["op"] == "create":
         return None if isinstance(o, G.Tag) else ("c", repr(case["secret"]), case["name"], case["value"], case["ver"], case["t"], case["kv"])
     if not case.get("_q"):
@@ -313,7 +364,9 @@ def nontrivial(case, o):
 def classify(case, o):
     yield "op=" + case["op"]
     yield "secret=" + ("str" if "k" in case["secret"] else "dict")
-    if case["op"] == "decode":
+    if case["op"] == "keyver":
+        yield "keyver=" + ("None" if o is None else "int")
+    elif case["op"] == "decode":
         yield "kind=" + case.get("kind", "?")
         yield "result=" + ("None" if o is None else "value" if isinstance(o, bytes) else "raise")
         yield "mac_evaluated=%s" % bool(case.get("_q"))
@@ -328,6 +381,8 @@ def classify(case, o):
 def signature(case, o):
     if case["op"] == "create":
         return "create-differs"
+    if case["op"] == "keyver":
+        return "keyver-differs"
     if isinstance(o, (G.Tag, list)):
         return "decode-raises"
     h = case.get("hint")
@@ -339,13 +394,24 @@ def signature(case, o):
 
 
 def shrink(case):
-    if case["op"] == "decode" and case.get("hint") is None:
+    if case["op"] == "decode" and case.get("hint") is None and case["x"]:
         x = case["x"]
         if len(x) > 1:
             yield dict(case, x=x[: len(x) // 2])
             yield dict(case, x=x[len(x) // 2:])
             yield dict(case, x=x[:-1])
             yield dict(case, x=x[1:])
+
+
+def neighbours(case, rng):
+    """search stage: byte substitutions (incl. non-UTF-8 bytes) of the disagreeing input, with provenance kept honest"""
+    if case.get("op") != "decode" or not case.get("x"):
+        return
+    x = B(case["x"])
+    for i in range(len(x)):
+        for c in (0xFF, 0x80, 0x7C, 0x30):
+            if x[i] != c:
+                yield dict(case, x=L(x[:i] + bytes([c]) + x[i + 1:]), xstr=False, kind="neighbour")
 
 
 def case_from_json(c):
@@ -367,10 +433,10 @@ def edits(x, full, rng):
             yield "ins", x[:i] + bytes([c]) + x[i:]
     for i in range(len(x)):
         b = x[i]
-        alts = {(b + 1) % 256, (b - 1) % 256, b ^ 0x20, 0x7C, 0x30, 0x3A, 0x3D, 0x0A} - {b}
+        alts = {(b + 1) % 256, (b - 1) % 256, b ^ 0x20, 0x7C, 0x30, 0x3A, 0x3D, 0x0A, 0xFF, 0x80, 0xC3} - {b}
         if not full:
-            alts = rng.sample(sorted(alts), 2)
-        for c in sorted(alts):
+            alts = rng.sample(sorted(alts), 2) + [0xFF if i % 2 else 0x80]
+        for c in sorted(set(alts)):
             yield "sub", x[:i] + bytes([c]) + x[i + 1:]
 
 
@@ -436,7 +502,8 @@ V1_RESPLIT_VALUES = [b"abc\xfb\x4d\x34", base64.b64decode(b"QUJD1234"), b"abcdef
 ARBITRARY = [b"", b"abc", b"|", b"||", b"|||", b"2|", b"2", b"1|", b"1|a|b", b"2|0:|0:|0:|0:|", b"2|1:0|10:1300000000|1:n|4:YWJj|", b"999|", b"1000|",
              b"3|1:0|", b"0|a", b"02|a", b"2|\n", b"2|a\nb", b"2|a\n", b"2\n|a", b"12|", b"1234|1|2", b"2|1:0", b"2|1:0|", b"2|:|", b"2|-1:|",
              b"2|-2:a|b", b"2|1:0|1:1|1:n|0:|", b"2|9999999999999999999999:0|", b"a|1|" + b"0" * 40, b"|1|", b"YWJj|1300000000|", b"2|1:0|10:1300000000|1:n|4:YWJj",
-             b"\xff\xfe|\x00|\n", b"2|1:0|10:1300000000|1:n|4:YWJj|" + b"0" * 64, b"2|+1:0|1:1|1:n|0:||", b"2| 1:0|", b"2|1 :0|", b"2|1_0:0123456789|"]
+             b"\xff\xfe|\x00|\n", b"2|1:0|10:1300000000|1:\xff|0:|00", b"2|1:0|1:1|2:\xc3(|4:AAAA|deadbeef", b"2|1:7|0:|3:\xe9ey|0:|",
+             "2|1:0|10:1300000000|3:k\u00e9|0:|x".encode("utf-8"), b"2|1:0|1:1|1:\x80|0:|", b"2|1:0|1:1|4:\xf0\x9f\x94|0:|", b"2|1:0|10:1300000000|1:n|4:YWJj|" + b"0" * 64, b"2|+1:0|1:1|1:n|0:||", b"2| 1:0|", b"2|1 :0|", b"2|1_0:0123456789|"]
 
 
 def corpus_cases():
@@ -555,7 +622,7 @@ def gen_cases(rng, tier):
             out.append(mk_decode(S_dict([(kvn, B(S["k"])), (kvn + 1, b"zz")]), name, y, 31 * DAY, t, 1, o, "dict-reader-same-key"))
             out.append(mk_decode(S_dict([(kvn + 1, B(S["k"])), (kvn, b"zz")]), name, y, 31 * DAY, t, 1, o, "dict-reader-other-version"))
     # clock placements
-    for o in rng.sample(bases, 12 if not full else 60):
+    for o in rng.sample(bases, 8 if not full else 60):
         y, _ = ref_create(o)
         if y is not None:
             out += windows(o, o["secret"], o["name"], y, "window")
@@ -567,9 +634,23 @@ def gen_cases(rng, tier):
         y, _ = ref_create(o)
         es = list(edits(y, full, rng))
         if not full:
-            es = [e for e in es if e[0] == "del"] + rng.sample([e for e in es if e[0] != "del"], 120)
+            hi = [e for e in es if e[0] == "sub" and o["ver"] == 2 and any(c >= 0x80 for c in e[1]) and not any(c >= 0x80 for c in y)]
+            es = [e for e in es if e[0] == "del"] + rng.sample([e for e in es if e[0] != "del"], 120) + hi
         for kind, x in es:
             out.append(mk_decode(o["secret"], o["name"], x, 31 * DAY, o["t"], 1, o, "edit-" + kind))
+    if full:   # every byte value at every position of the framing + name field of one value, and of a format-1 timestamp
+        o = edit_bases[0]
+        y, _ = ref_create(o)
+        for i in list(range(0, 24)) + list(range(len(y) - 66, len(y) - 60)):
+            for c in range(256):
+                if c != y[i]:
+                    out.append(mk_decode(o["secret"], o["name"], y[:i] + bytes([c]) + y[i + 1:], 31 * DAY, o["t"], 1, o, "edit-sub-all"))
+        o = edit_bases[1]
+        y, _ = ref_create(o)
+        for i in range(3, 17):
+            for c in range(256):
+                if c != y[i]:
+                    out.append(mk_decode(o["secret"], o["name"], y[:i] + bytes([c]) + y[i + 1:], 31 * DAY, o["t"], 1, o, "edit-sub-all"))
     # field swaps / transplants
     for _ in range(40 if not full else 400):
         o, o2 = rng.sample(bases, 2)
@@ -626,10 +707,45 @@ def gen_cases(rng, tier):
             out.append(mk_decode(S_str(b"k"), "n", b"m" + p0 + b"|" + p1 + b"|" + sg, 31 * DAY, t0, 1, o, "v1-cross-name"))
 
     # ---- decode: key-holder-crafted lax encodings ----
-    n = 150 if not full else 1500
+    n = 110 if not full else 1500
     out += crafted_v2(rng, b"k", S_str(b"k"), "n", n)
     out += crafted_v2(rng, b"k1", S_dict([(0, b"k0"), (1, b"k1"), (10, b"k1")]), "n", n // 2)
     out += crafted_v1(rng, b"k", S_str(b"k"), "n", n // 2)
+
+    # ---- well-formed format-2 framing around arbitrary field bytes, no valid signature ----
+    for _ in range(120 if not full else 1200):
+        fs = [rng.choice([b"0", b"1", b"7"]), rng.choice([b"%d" % T0, b"1", b""]),
+              rng.choice([b"n", rand_bytes(rng, rng.randrange(0, 4)), b"\xff", b"\xc3(", b"\xe9ey", "k\u00e9".encode("utf-8")]),
+              rng.choice([b"", b"YWJj", rand_bytes(rng, rng.randrange(0, 5))])]
+        x = b"2|" + b"|".join(fmt(f) for f in fs) + b"|" + rng.choice([b"", b"00", b"0" * 64, b"deadbeef"])
+        nm = rng.choice(["n", fs[2].decode("utf-8", "replace")])
+        out.append(mk_decode(rng.choice(allsecrets), nm, x, 31 * DAY, T0, rng.choice([1, 2]), None, "v2-framed-garbage"))
+
+    # ---- argument forms: None value, bytes names, str values ----
+    for S in allsecrets[:4]:
+        for minv in (1, 2, 3):
+            out.append(mk_decode(S, "n", None, 31 * DAY, T0, minv, None, "none-value"))
+    for o in rng.sample(bases, 25 if not full else len(bases)):
+        y, _ = ref_create(o)
+        if y is not None:
+            out.append(mk_decode(o["secret"], o["name"], y, 31 * DAY, o["t"], 1, o, "authentic-bytes-name", nameb=True))
+            out.append(mk_keyver(y, (o["kv"] or 0) if o["ver"] == 2 else None))
+            try:
+                y.decode("utf-8")
+                out.append(mk_keyver(y, (o["kv"] or 0) if o["ver"] == 2 else None, xstr=True))
+            except UnicodeDecodeError:
+                pass
+            out.append(mk_keyver(y[: rng.randrange(len(y))]))
+    for name in names:
+        for v in (b"", b"value", "caf\u00e9 \u20ac \U0001f511".encode("utf-8"), b"\x7f"):
+            for ver in (1, 2):
+                out.append(mk_create(rng.choice(secrets_str[:2]), name, v, ver, T0, None, vstr=True, nameb=rng.random() < 0.5))
+    for x in ARBITRARY:
+        out.append(mk_keyver(x))
+    for c in crafted_v2(rng, b"k", S_str(b"k"), "n", 60 if not full else 600):
+        out.append(mk_keyver(B(c["x"])))
+    for _ in range(60 if not full else 1000):
+        out.append(mk_keyver(rng.choice([b"2|", b"3|", b"12|", b"999|", b"1000|", b"2|1:0|", b"1|"]) + rand_bytes(rng, rng.randrange(0, 12), b"2|:0123456789-+_ \n")))
 
     # ---- decode: arbitrary strings ----
     for x in ARBITRARY:
@@ -646,10 +762,11 @@ def gen_cases(rng, tier):
     return out
 
 
-LEVEL_TEXT = ("Machine-checked (Coq) proofs over an executable model of create_signed_value / _get_version / decode_signed_value (both formats, "
-              "string and key-version-dictionary secrets, Python int() and slice semantics, binascii base64): the round trip inside the validity window, "
-              "soundness of format 2 under an explicit unforgeability premise (a returned value implies the presented string is exactly an issued one, "
-              "same name, unexpired), the weaker re-split statement for format 1, key separation, and totality (never raises for min_version <= 2). "
+LEVEL_TEXT = ("Machine-checked (Coq) proofs over an executable model of create_signed_value / _get_version / decode_signed_value / get_signature_key_version "
+              "(both formats, str/bytes/None arguments with utf8() modelled, string and key-version-dictionary secrets, Python int() and slice semantics, binascii base64): "
+              "the round trip inside the validity window for all names/values/secrets, soundness of format 2 under an explicit unforgeability premise (a returned value implies "
+              "the presented string is exactly an issued one, same name, unexpired), rejection of every single-byte substitution and of any change to the signed part or to the "
+              "signature under an injective fixed-length HMAC, the weaker re-split statement for format 1, key separation, totality, and check_case accepts the model on every input. "
               "The model is compared with the implementation, using real HMAC, on structured edits of authentic values and arbitrary strings.")
 LEVEL_NOTE = ("Trusted: Coq kernel/vm_compute; HMAC idealised (premises named in the theorems); utf8(), clock and max_age as exact numbers; "
               "hand-modelled regex; correspondence harness.")
